@@ -4,13 +4,14 @@ import GV.Driver.TypeOps
 import GV.Driver.NamingOps
 import GV.Driver.LinkOps
 import GV.Driver.ScopeOps
+import GV.Driver.LitOps
 /-
 gvdriver: reads the oracle's operation lines on stdin and answers each with the model's result, in the
 oracle's output format.  Core-only (links as a native executable).
 -/
 open GV.Driver
 
-def handlers : List Handler := [hashOps, flagOps, typeOps, namingOps, linkOps, scopeOps]
+def handlers : List Handler := [hashOps, flagOps, typeOps, namingOps, linkOps, scopeOps, litOps]
 
 def step (st : St) (line : String) : St × String :=
   let f := line.splitOn " "
